@@ -5,7 +5,7 @@
 EXTENDS Layout, Json, IOUtils, SequencesExt
 CONSTANT Pairs    \* set of form indices for which two gaps are varied together
 
-Variants == {v \in OneGap : Valid(v)} \cup {v \in TwoGaps(Pairs) : Valid(v)} \cup {v \in CaseVariants : ValidCase(v)} \cup Whole
+Variants == {v \in OneGap : Valid(v)} \cup {v \in TwoGaps(Pairs) : Valid(v)} \cup {v \in CaseVariants : ValidCase(v)} \cup Whole \cup TailV
 
 VARIABLES v, toks, phase
 vars == <<v, toks, phase>>
